@@ -262,6 +262,21 @@ func c37(r *core.Run) {
 						}
 					}
 				}
+				// S9: a bit vector built over peer bytes takes its logical length from local
+				// knowledge (the file's chunk count), never from the length of the peer's bytes:
+				// later local lookups index it by chunk position
+				if name == "pkg/bitvector.NewFromBytes" && len(args) == 2 && t.Tainted(args[0]) {
+					fromPeerLen := t.Tainted(args[1]) || core.DerivesFrom(args[1], func(v ssa.Value) bool {
+						l, ok := isBuiltinCall(v, "len")
+						return ok && t.Tainted(l.Call.Args[0])
+					}, nil)
+					desc := "bit vector over peer bytes " + core.Path(args[0])
+					if fromPeerLen {
+						sinks = append(sinks, finding{fn, in, "C37.S9", desc, "its logical length is taken from the peer's own data: a too-short vector is accepted and a later local Get(chunk position) indexes past its end"})
+					} else {
+						oks = append(oks, finding{fn, in, "C37.S9", desc + " sized by local knowledge", ""})
+					}
+				}
 				// S2 Must*
 				if strings.HasPrefix(short, "Must") {
 					for _, a := range args {
